@@ -445,7 +445,7 @@ def access_paths(e, acc=None):
     """Access paths (root_local, field, field, ...) of the variables / field chains mentioned in e."""
     if acc is None:
         acc = set()
-    if isinstance(e, tuple):
+    if isinstance(e, tuple) and e:
         p = _as_path(e)
         if p is not None:
             acc.add(p)
